@@ -4,13 +4,13 @@ import json
 from .. import accept
 
 
-def check_fn_tables(prog, res, rule, fns, alias=None, only_ok=False):
+def check_fn_tables(prog, res, rule, fns, alias=None, only_ok=False, quantified=False):
     """fns: {fn_path: expected table [[atoms, value], ...]}"""
     for fn, want in fns.items():
         if fn not in prog.bodies:
             res.violate(rule, fn, "missing", "function `%s` not found" % fn, "", kind="anchor-missing")
             continue
-        got = [[a, v] for a, v in accept.ret_table(prog, fn, alias=alias, only_ok=only_ok)]
+        got = [[a, v] for a, v in accept.ret_table(prog, fn, alias=alias, only_ok=only_ok, quantified=quantified)]
         res.functions.add(fn)
         if isinstance(want, dict):
             # {"default": V, "rows": [...]}: the rows with another value are listed; every remaining path returns V.
